@@ -48,6 +48,13 @@ func (e *Encoder) call(fr *frame, ci ssa.CallInstruction) *SVal {
 		args = append(args, e.val(fr, a))
 	}
 	pos := ci.Pos()
+	if e.pure == 0 {
+		for _, a := range args {
+			if a != nil && a.K != KStruct && a.K != KTuple && a.K != KArray {
+				e.niTerms = append(e.niTerms, a.comps()...)
+			}
+		}
+	}
 	if cm.IsInvoke() {
 		recv := e.val(fr, cm.Value)
 		// nil interface method call panics
@@ -220,12 +227,21 @@ func (e *Encoder) callPure(callee *ssa.Function, args []*SVal, st *State) *SVal 
 	saved, savedGuard := e.cur, e.guard
 	nA := len(e.assumptions)
 	e.pure++
+	e.specPure++
 	e.inlineStack = append(e.inlineStack, callee)
 	rv, _, _ := e.run(nf, args, e.c.True(), st)
 	e.inlineStack = e.inlineStack[:len(e.inlineStack)-1]
 	e.pure--
+	e.specPure--
 	e.cur, e.guard = saved, savedGuard
-	_ = nA
+	// facts introduced while evaluating a spec function must not mention its bound variables
+	kept := e.assumptions[:nA]
+	for _, a := range e.assumptions[nA:] {
+		if !a.hb {
+			kept = append(kept, a)
+		}
+	}
+	e.assumptions = kept
 	return rv
 }
 
